@@ -307,6 +307,23 @@ func init() {
 		e.store(fr, st, fp, ft, &Sc{e.ptrTerm(args[1])}, "atomic pointer store")
 		return nil
 	}
+	// Iteration with a callback (segmentTree.Ascend, sync.Map.Range): the callback
+	// runs an unknown number of times on unknown elements. Sound abstraction: every
+	// location the callback can write is havocked (fields of its parameters: whole
+	// field maps; captured variables: their cells).
+	iterate := func(argIdx int) intrinsic {
+		return func(e *Engine, fr *Frame, st *State, fn *ssa.Function, args []SV, resT types.Type, pos token.Pos) SV {
+			e.vc.usedExt["iteration "+funcKey(fn)+": callback effects over-approximated by havoc of everything it may write"] = true
+			fv, ok := args[argIdx].(*FuncSV)
+			if !ok || fv.Fn == nil {
+				panic(engErr("iteration callback is not a known closure at " + e.posStr(pos)))
+			}
+			e.havocClosureEffects(fr, st, fv, map[*ssa.Function]bool{}, 0)
+			return nil
+		}
+	}
+	intrinsics["github.com/enfein/mieru/v3/pkg/protocol.segmentTree.Ascend"] = iterate(1)
+	intrinsics["sync.Map.Range"] = iterate(1)
 	intrinsicPrefixes = map[string]intrinsic{
 		logPkg: noop,
 	}
